@@ -16,6 +16,12 @@ class M:
     def bad_edges(self, sorted_edges, connection_list):
         return (sorted_edges[:, 1, :] < connection_list.shape[1]).all(axis=1)
 
+    def bad_flat_index(self, c, grid_shape):
+        return int(c[0]) * grid_shape[0] + int(c[1])
+
+    def good_flat_index(self, c, grid_shape):
+        return int(c[0]) * grid_shape[1] + int(c[1])
+
     def good_components(self, pos):
         r, c = pos
         return 0 <= r < self.grid_shape[0] and 0 <= c < self.connection_list.shape[2] and pos[1] < self.grid_shape[1]
